@@ -32,7 +32,7 @@ BUDGET = {
 def cases(draw):
     spec = draw(models.model_specs(names=draw(st.sampled_from(["free", "free", "ident"])), n_state=(1, 5), n_control=(0, 3), n_calib=(0, 2), depth=3,
                                    allow_string_form=True, allow_alt_dt=True, allow_wrap=True))
-    pts = [draw(models.points(spec, dt=("pos", "neg"), extra_zero_dt=True)) for _ in range(6)]
+    pts = draw(models.point_sequences(spec, 6, dt=("pos", "neg"), extra_zero_dt=True))
     return {"model": spec, "points": pts}
 
 
